@@ -52,7 +52,7 @@ def one_case(ctx, prog):
 
 
 def run_shard(ctx):
-    for i in range(ncases(ctx.tier)):
+    for i in ctx.cases(ncases(ctx.tier)):
         case = {"program": kern.gen_program(ctx.rng(i), PROFILE)}
         viol, nt = one_case(ctx, case["program"])
         for m, what, wit in viol:
